@@ -14,7 +14,11 @@ def run_mir(tier, seed):
     # ext_presence: nothing written by the TBS closure is computed from the issuer key's stored document (AKI source, taint over all
     # writer arguments) - covers the code compiled only with the crypto feature, which the Kani queries cannot reach
     # debug_without_secret: the diagnostics clause - the Debug output of a key pair is built without reading the stored document
-    return mir_check.run_obligations([dn.ob_ext_presence, dn.ob_sign_arms, secret.ob_debug_no_secret])
+    r1, v1, i1 = mir_check.run_obligations([dn.ob_ext_presence, dn.ob_sign_arms, secret.ob_debug_no_secret, secret.ob_pubkey_no_secret])
+    # error texts of the PEM loaders must not quote the decoded key block (pem_envelope_inputs' leak clause; MIR with the x509-parser feature)
+    import pem
+    r2, v2, i2 = mir_check.run_obligations([pem.ob_pem], features="x509-parser")
+    return r1 + r2, v1 + v2, i1 + i2
 
 
 def spec(tier, seed):
